@@ -445,3 +445,26 @@ Proof.
   - intros c Hc. assert (c = 0) by lia. subst. apply Qc_is_canon. vm_compute. reflexivity.
   - apply mlist_eqb_ok. vm_compute. reflexivity.
 Qed.
+
+(* ---------------- the cut-off is ABSOLUTE: the front-end is not scale equivariant ----------------
+   (known finding F36, scale variant).  Same four points, same test matrix; the table scaled by 2^-20, so
+   B -> 2^-40 B and the norm the loop asks for is 2 * 2^-40 < 1e-4: the branch fires and the basis is the zero
+   column (the C++ then divides: NaN / eigendecomposition_error), whereas at scale 1 the basis is (1,-1,1,-1)/2.
+   Mds_scale_equivariance holds for the dense front-end only. *)
+Definition exq_c2 : Qc := qfrac 1 (2 ^ 40).
+Lemma exq_scale_refuted :
+  let B := mds_matrix 4 exr_dist in
+  mtab 4 1 (rand_basis exq_below 4 1 B exq_O exq_s)
+    = [[qfrac 1 2]; [qfrac (-1) 2]; [qfrac 1 2]; [qfrac (-1) 2]] /\
+  exq_below (exq_c2 * qz 2)%Qc = true /\
+  ((exq_c2 * qz 2) * (exq_c2 * qz 2))%Qc =
+     (let Y0 := rand_Y0 4 (mscale exq_c2 B) exq_O in dot 4 (fun t => Y0 t 0) (fun t => Y0 t 0)) /\
+  mtab 4 1 (rand_basis exq_below 4 1 (mscale exq_c2 B) exq_O (fun _ => (exq_c2 * qz 2)%Qc))
+    = [[Q2Qc 0]; [Q2Qc 0]; [Q2Qc 0]; [Q2Qc 0]].
+Proof.
+  cbv zeta. split; [|split; [|split]].
+  - apply mlist_eqb_ok. vm_compute. reflexivity.
+  - vm_compute. reflexivity.
+  - apply Qc_is_canon. vm_compute. reflexivity.
+  - apply mlist_eqb_ok. vm_compute. reflexivity.
+Qed.
